@@ -17,8 +17,8 @@ theorem phase2_nil_snd (retries : Nat) (c : Option Nat) (i : Nat) : (phase2 retr
   · simp
   · split <;> simp
 
-theorem phase2_bound (retries : Nat) (c : Option Nat) (i : Nat) (script : List Reply) (h : retries ≠ 0) :
-    (phase2 retries c i script).1 ≤ retries - i := by
+theorem phase2_bound (retries : Nat) (c : Option Nat) (i : Nat) (script : List Reply) :
+    (phase2 retries c i script).1 ≤ attempts retries - i := by
   induction script generalizing i with
   | nil => rw [phase2_nil_fst]; omega
   | cons r rest ih =>
@@ -100,7 +100,7 @@ theorem C04_decision_sent (retries : Nat) (cb : Outcome) (r : Reply) (script : L
   have h1 : 1 ≤ (phase2 retries none 0 (r :: script)).1 := by
     unfold phase2
     simp only [cancelled, Bool.false_eq_true, if_false]
-    have : ¬ (retries ≠ 0 ∧ retries ≤ 0) := by omega
+    have : ¬ (attempts retries ≤ 0) := by unfold attempts; split <;> omega
     simp only [this, if_false]
     cases r <;> simp
   generalize (phase2 retries none 0 (r :: script)).1 = n at h1
@@ -108,14 +108,31 @@ theorem C04_decision_sent (retries : Nat) (cb : Outcome) (r : Reply) (script : L
   | zero => omega
   | succ n => simp [List.replicate_succ]
 
-/-- at most the configured number of attempts (retry count ≥ 1) -/
-theorem C04_retry_bound (retries : Nat) (b : Reply) (cb : Outcome) (script : List Reply) (c : Option Nat)
-    (h : retries ≠ 0) :
-    (withGlobalTx retries b cb script c).1.length ≤ 1 + retries := by
+/-- at most the configured number of attempts, for every setting of the retry count -/
+theorem C04_retry_bound (retries : Nat) (b : Reply) (cb : Outcome) (script : List Reply) (c : Option Nat) :
+    (withGlobalTx retries b cb script c).1.length ≤ 1 + attempts retries := by
   unfold withGlobalTx
   cases b <;> simp
-  have := phase2_bound retries c 0 script h
+  have := phase2_bound retries c 0 script
   omega
+
+/-- retry count 0: the decision is sent once and never repeated -/
+theorem C04_retry_zero_once (b : Reply) (cb : Outcome) (script : List Reply) (c : Option Nat) :
+    (withGlobalTx 0 b cb script c).1.length ≤ 2 := by
+  have := C04_retry_bound 0 b cb script c
+  simpa [attempts] using this
+
+/-- before the repair a retry count of 0 bounded nothing: as many requests as the coordinator lets fail -/
+theorem C04_before_fix_retry_zero_unbounded (n : Nat) :
+    (phase2BeforeFix 0 none 0 (List.replicate n .transport ++ [.ok])).1 = n + 1 := by
+  suffices h : ∀ i, (phase2BeforeFix 0 none i (List.replicate n .transport ++ [.ok])).1 = n + 1 from h 0
+  induction n with
+  | zero => intro i; unfold phase2BeforeFix; simp [cancelled]
+  | succ n ih =>
+    intro i
+    rw [List.replicate_succ, List.cons_append]
+    unfold phase2BeforeFix
+    simp [cancelled, ih (i + 1)]
 
 /-- an attempt is repeated only after a transport failure of the previous one -/
 theorem C04_retry_only_on_transport (retries : Nat) (b : Reply) (cb : Outcome) (script : List Reply) (c : Option Nat) :
@@ -127,15 +144,10 @@ theorem C04_retry_only_on_transport (retries : Nat) (b : Reply) (cb : Outcome) (
   · omega
   · omega
 
-/-- fragment predicate: the coordinator never answers the second phase with a Failed result code -/
-def NoRefusal (script : List Reply) : Prop := Reply.failed ∉ script
-
-/-- Truthful (partial: excludes exactly the known finding C04-refused-commit): nil is returned ONLY
-    IF begin succeeded, the business returned nil (no error, no panic), the context was not cancelled
-    before the second phase and the coordinator acknowledged the commit (the first non-transport
-    reply is a success). -/
-theorem C04_truthful_partial (retries : Nat) (b : Reply) (cb : Outcome) (script : List Reply) (c : Option Nat)
-    (hfrag : NoRefusal script)
+/-- Truthful: nil is returned ONLY IF begin succeeded, the business returned nil (no error, no panic), the
+    context was not cancelled before the second phase and the coordinator acknowledged the commit (the first
+    reply that is not a transport failure is an acknowledgement). -/
+theorem C04_truthful (retries : Nat) (b : Reply) (cb : Outcome) (script : List Reply) (c : Option Nat)
     (h : (withGlobalTx retries b cb script c).2 = .ok) :
     b = .ok ∧ cb = .ok ∧ (script.dropWhile (· = .transport)).head? = some .ok ∧ ¬ cancelled c 0 := by
   unfold withGlobalTx at h
@@ -145,43 +157,26 @@ theorem C04_truthful_partial (retries : Nat) (b : Reply) (cb : Outcome) (script 
     intro hc
     unfold phase2 at h2
     simp [hc] at h2
-  have h2 : (phase2 retries c 0 script).2 = .acked ∨ (phase2 retries c 0 script).2 = .refused := by
-    by_cases hh : (phase2 retries c 0 script).2 = .acked
-    · exact Or.inl hh
-    · exact Or.inr (h2 hh)
-  rcases h2 with h2 | h2
-  · exact ⟨rfl, h1, (phase2_answered retries c 0 script).1 h2, hc⟩
-  · have := (phase2_answered retries c 0 script).2 h2
-    have hm : Reply.failed ∈ script.dropWhile (· = .transport) := by
-      cases hd : script.dropWhile (· = .transport) with
-      | nil => rw [hd] at this; simp at this
-      | cons x xs => rw [hd] at this; simp at this; simp [this]
-    exact absurd ((List.dropWhile_sublist _).subset hm) hfrag
+  exact ⟨rfl, h1, (phase2_answered retries c 0 script).1 h2, hc⟩
 
-/-- Without the fragment hypothesis: nil still implies a successful begin, a nil callback, no
-    cancellation, and that the coordinator ANSWERED the commit (acknowledged or refused). -/
-theorem C04_truthful_weak (retries : Nat) (b : Reply) (cb : Outcome) (script : List Reply) (c : Option Nat)
-    (h : (withGlobalTx retries b cb script c).2 = .ok) :
-    b = .ok ∧ cb = .ok ∧ ¬ cancelled c 0 ∧
-    ((script.dropWhile (· = .transport)).head? = some .ok ∨ (script.dropWhile (· = .transport)).head? = some .failed) := by
-  unfold withGlobalTx at h
-  cases b <;> simp at h
-  obtain ⟨h1, h2⟩ := h
-  have hc : ¬ cancelled c 0 = true := by
-    intro hc
-    unfold phase2 at h2
-    simp [hc] at h2
-  have h2 : (phase2 retries c 0 script).2 = .acked ∨ (phase2 retries c 0 script).2 = .refused := by
-    by_cases hh : (phase2 retries c 0 script).2 = .acked
-    · exact Or.inl hh
-    · exact Or.inr (h2 hh)
-  rcases h2 with h2 | h2
-  · exact ⟨rfl, h1, hc, Or.inl ((phase2_answered retries c 0 script).1 h2)⟩
-  · exact ⟨rfl, h1, hc, Or.inr ((phase2_answered retries c 0 script).2 h2)⟩
+/-- a refused commit always surfaces -/
+theorem C04_refusal_surfaces (retries : Nat) (cb : Outcome) (script : List Reply) (c : Option Nat)
+    (h : (script.dropWhile (· = .transport)).head? = some .failed) :
+    (withGlobalTx retries .ok cb script c).2 = .err := by
+  have hne : (withGlobalTx retries .ok cb script c).2 ≠ .ok := by
+    intro hok
+    have := (C04_truthful retries .ok cb script c hok).2.2.1
+    rw [h] at this
+    cases this
+  unfold withGlobalTx at hne ⊢
+  simp only at hne ⊢
+  split
+  · rename_i hh; simp [hh] at hne
+  · rfl
 
-/-- The full truthfulness statement is FALSE of the code at HEAD: known finding C04-refused-commit. -/
-theorem C04_refused_commit_is_success_FINDING :
-    withGlobalTx 5 .ok .ok [.failed] none = ([.begin, .commit], .ok) := by decide
+/-- before the repair a refused commit was reported as success (finding C04-refused-commit, closed) -/
+theorem C04_before_fix_refused_commit_is_success :
+    withGlobalTxBeforeFix 5 .ok .ok [.failed] none = ([.begin, .commit], .ok) := by decide
 
 /-- never a crash -/
 theorem C04_no_crash (retries : Nat) (b : Reply) (cb : Outcome) (script : List Reply) (c : Option Nat) :
@@ -204,5 +199,7 @@ theorem C04_asCoded_refused_commit_is_success :
 example : withGlobalTx 5 .ok .ok [.transport, .transport, .ok] none = ([.begin, .commit, .commit, .commit], .ok) := by decide
 example : withGlobalTx 2 .ok .err [.transport, .transport, .ok] none = ([.begin, .rollback, .rollback], .err) := by decide
 example : withGlobalTx 5 .ok .ok [.transport, .ok] (some 1) = ([.begin, .commit], .err) := by decide
+example : withGlobalTx 5 .ok .ok [.transport, .failed] none = ([.begin, .commit, .commit], .err) := by decide
+example : withGlobalTx 0 .ok .ok [.transport, .ok] none = ([.begin, .commit], .err) := by decide
 
 end Seata.Props.C04
